@@ -114,6 +114,123 @@ fn enumerate(env: &Env, st: &mut Stats) -> Vec<Failure> {
     fails
 }
 
+/// Coarse grid on larger arrays (length thresholds such as 64 / 128 / 256).
+fn enumerate_large(env: &Env, st: &mut Stats) -> Vec<Failure> {
+    let lens: &[usize] = if env.tier == Tier::Thorough { &[31, 32, 33, 63, 64, 65, 70, 100, 127, 128, 129, 255, 256, 257, 300, 1000] } else { &[32, 63, 64, 65, 70, 128, 129, 300] };
+    let mut fails = vec![];
+    for &len in lens {
+        let l = len as i32;
+        let mut bounds: Vec<Option<i32>> = vec![None];
+        for x in [0, 1, 3, 5, 10, l / 2, l - 11, l - 4, l - 2, l - 1, l, l + 5] {
+            bounds.push(Some(x));
+            bounds.push(Some(-x - 1));
+        }
+        for a in &bounds {
+            for b2 in &bounds {
+                for c in [None, Some(1), Some(-1), Some(2), Some(-2), Some(3), Some(-3), Some(7), Some(-7), Some(63), Some(64), Some(-64), Some(-65)] {
+                    if let Err(f) = check_slice("enumerate-large", len, *a, *b2, c, st, true) {
+                        fails.push(f);
+                        if fails.len() > 10 {
+                            return fails;
+                        }
+                    }
+                }
+            }
+        }
+    }
+    fails
+}
+
+/// A slice followed by a right-hand side: every element of the slice goes
+/// through the right-hand side in slice order (small-scope enumeration).
+fn slice_rhs(env: &Env, st: &mut Stats) -> Vec<Failure> {
+    let max_len = if env.tier == Tier::Thorough { 16 } else { 9 };
+    let rhs_forms: &[(&str, &str)] = &[(".v", "v"), (".v.w", "w"), ("[0]", "i0"), (".[v]", "lv"), (".{k: v}", "hv"), (" | [*].v", "v"), ("[*]", "star"), (".t[0]", "t0")];
+    let mut bounds: Vec<Option<i32>> = vec![None];
+    bounds.extend((-6..=6).map(Some));
+    let mut fails = vec![];
+    for len in 0..=max_len {
+        // rows: v = index, w nested, t array; row 2 is not an object; row 4 has a null v
+        let rows: Vec<serde_json::Value> = (0..len)
+            .map(|i| {
+                if i == 2 {
+                    json!([i, i + 100])
+                } else if i == 4 {
+                    json!({"v": null, "t": [i]})
+                } else {
+                    json!({"v": i, "t": [i, 0], "x": {"w": i}})
+                }
+            })
+            .collect();
+        let doc = json!({ "rows": rows }).to_string();
+        let docj = J::parse(&doc).unwrap();
+        for a in &bounds {
+            for b2 in &bounds {
+                for c in [None, Some(1i32), Some(-1), Some(2), Some(-2), Some(3), Some(-3), Some(5), Some(-4)] {
+                    for (rhs, _) in rhs_forms {
+                        let f = |x: &Option<i32>| x.map(|v| v.to_string()).unwrap_or_default();
+                        let text = match c {
+                            None => format!("rows[{}:{}]{}", f(a), f(b2), rhs),
+                            Some(s) => format!("rows[{}:{}:{}]{}", f(a), f(b2), s, rhs),
+                        };
+                        let text = text.replace(".v.w", ".x.w");
+                        st.eval();
+                        let tree = match crate::refparse::parse_strict(&text) {
+                            Ok(t) => t,
+                            Err(e) => {
+                                fails.push(Failure::new("slice-rhs", "harness-ref", e.msg, json!({"expression": text})));
+                                return fails;
+                            }
+                        };
+                        // model: Python slice of the rows, then the right-hand side on each, nulls dropped
+                        let mut cx = crate::refeval::Ctx::default();
+                        let want = crate::refeval::eval(&tree, &docj, &mut cx);
+                        let got = search_text(&text, &doc);
+                        let ok = match (&want, &got) {
+                            (Ok(w), ImpOut::Ok(g)) => w.deep_eq(g),
+                            _ => false,
+                        };
+                        if !ok {
+                            fails.push(Failure::new(
+                                "slice-rhs",
+                                "wrong-slice-projection",
+                                format!("{} on {} rows gave {} expected {:?}", text, len, got.brief(), want.map(|w| w.to_json())),
+                                json!({"expression": text, "document": doc}),
+                            ));
+                            if fails.len() > 10 {
+                                return fails;
+                            }
+                        } else if c.map(|s: i32| s.abs() >= 2).unwrap_or(false) && len >= 3 {
+                            st.nontrivial(&format!("{}|{}", text, len));
+                        }
+                    }
+                }
+            }
+        }
+    }
+    st.sample(|| json!({"expression": "rows[::-2].v", "rows": "0..=9 rows, one non-object, one null v"}));
+    fails
+}
+
+fn replay_slice_rhs(case: &Value, _env: &Env) -> CaseResult {
+    let text = case["expression"].as_str().unwrap_or("");
+    let doc = case["document"].as_str().unwrap_or("null");
+    let tree = crate::refparse::parse_strict(text).map_err(|e| Failure::new("slice-rhs", "harness-ref", e.msg, case.clone()))?;
+    let d = J::parse(doc).map_err(|e| Failure::new("slice-rhs", "harness-doc", e, case.clone()))?;
+    let mut cx = crate::refeval::Ctx::default();
+    let want = crate::refeval::eval(&tree, &d, &mut cx);
+    match (&want, search_text(text, doc)) {
+        (Ok(w), ImpOut::Ok(g)) if w.deep_eq(&g) => Ok(()),
+        (w, g) => Err(Failure::new("slice-rhs", "wrong-slice-projection", format!("gave {} expected {:?}", g.brief(), w.as_ref().map(|x| x.to_json())), case.clone())),
+    }
+}
+
+fn replay_enum_large(case: &Value, _env: &Env) -> CaseResult {
+    let g = |k: &str| case[k].as_i64().map(|x| x as i32);
+    let mut st = Stats::new();
+    check_slice("enumerate-large", case["len"].as_u64().unwrap_or(0) as usize, g("start"), g("stop"), g("step"), &mut st, true)
+}
+
 fn replay_enum(case: &Value, _env: &Env) -> CaseResult {
     let g = |k: &str| case[k].as_i64().map(|x| x as i32);
     let mut st = Stats::new();
@@ -136,7 +253,11 @@ fn random(src: &mut Src, st: &mut Stats, _env: &Env) -> CaseResult {
     let len = if src.chance(40) { src.size(600) } else { src.below(41) };
     let a = wide_int(src, len);
     let b2 = wide_int(src, len);
-    let c = wide_int(src, len);
+    // steps: mostly small in magnitude whatever the length
+    let c = match src.below(4) {
+        0 => wide_int(src, len),
+        _ => *src.pick(&[None, Some(1), Some(-1), Some(2), Some(-2), Some(3), Some(-3), Some(7), Some(-7), Some(64), Some(-64)]),
+    };
     check_slice("random", len, a, b2, c, st, c.unwrap_or(1) != 0)
 }
 
@@ -217,6 +338,8 @@ pub fn property() -> Property {
         minimise: None,
         subs: vec![
             Sub::Custom(CustomSub { name: "enumerate", run: enumerate, replay: replay_enum }),
+            Sub::Custom(CustomSub { name: "enumerate-large", run: enumerate_large, replay: replay_enum_large }),
+            Sub::Custom(CustomSub { name: "slice-rhs", run: slice_rhs, replay: replay_slice_rhs }),
             Sub::Bytes(BytesSub { name: "random", f: random, max_len: 40, quick: Budget { threads: 8, cases: 10_000 }, thorough: Budget { threads: 16, cases: 500_000 }, keep_unreproducible: false }),
             Sub::Bytes(BytesSub { name: "subjects", f: subjects, max_len: 300, quick: Budget { threads: 8, cases: 6_000 }, thorough: Budget { threads: 16, cases: 200_000 }, keep_unreproducible: false }),
         ],
